@@ -58,13 +58,11 @@ Inductive batch_shape : list op -> Prop :=
 | shape_full : forall acqs, forallb is_acq acqs = true -> batch_shape (OClear :: acqs)
 | shape_partial : forall lt lh lb acqs, forallb is_acq acqs = true ->
     batch_shape (OTcpRemove lt :: OHostsRemove lh :: OBacksRemove lb :: acqs).
-(* when the update starts: the default backend is the backend of the one service the controller
-   was started with (dn), exactly while it exists; the backend of a host's root path exists *)
-Definition ready (dn : N) (c : config) : Prop :=
-  b_def (c_b c) = (if isSome (b_items (c_b c) dn) then Some dn else None) /\
+(* when the update starts: the backend of a host's root path exists *)
+Definition ready (c : config) : Prop :=
   forall h hc b, h_items (c_h c) h = Some hc -> hroot hc = Some b -> b_items (c_b c) b <> None.
-Definition wf_batch (e : env) (dn : N) (c : config) (l : list op) : Prop :=
-  batch_shape l /\ Forall (op_in e) l /\ ready dn (apply_ops e c l).
+Definition wf_batch (e : env) (c : config) (l : list op) : Prop :=
+  batch_shape l /\ Forall (op_in e) l /\ ready (apply_ops e c l).
 
 (* ================================================================ basics *)
 
@@ -273,9 +271,8 @@ Definition shards_inv (e : env) (c : config) (d : disk) : Prop := forall j, j < 
 (* an instance that has not written a configuration yet knows nothing *)
 Definition virgin (c : config) : Prop := c_globold c = None /\ forall x, b_items (c_b c) x = None.
 
-(* the default backend follows the existence of the backend of the one default service *)
-Definition defp (dn : N) (c : config) : Prop :=
-  b_def (c_b c) = if isSome (b_items (c_b c) dn) then Some dn else None.
+(* Commit remembers the default backend *)
+Definition defp (c : config) : Prop := b_defc (c_b c) = b_def (c_b c).
 (* Commit copies the globals *)
 Definition glob_ok (c : config) : Prop := forall g, c_globold c = Some g -> g = c_glob c.
 
@@ -287,8 +284,8 @@ Definition run_inv (e : env) (s : inst) : Prop :=
 (* every state a history reaches: either the files are known, or the last update failed.
    Nothing is known of the backend files until the instance has written a configuration
    ([i_clean]): a restarted controller finds whatever the former one left. *)
-Definition reach (e : env) (dn : N) (s : inst) : Prop :=
-  dom e (i_cfg s) /\ clean (i_cfg s) /\ defp dn (i_cfg s) /\ glob_ok (i_cfg s) /\
+Definition reach (e : env) (s : inst) : Prop :=
+  dom e (i_cfg s) /\ clean (i_cfg s) /\ defp (i_cfg s) /\ glob_ok (i_cfg s) /\
   (i_clean s = true -> no_high_shards e (i_disk s)) /\
   (i_failed s = true \/
    (i_failed s = false /\ disk_inv e (i_cfg s) (i_disk s) /\ run_inv e s /\
@@ -297,15 +294,15 @@ Definition reach (e : env) (dn : N) (s : inst) : Prop :=
     (i_clean s = false -> virgin (i_cfg s)))).
 
 (* after a successful update *)
-Definition good (e : env) (dn : N) (s : inst) : Prop :=
-  dom e (i_cfg s) /\ clean (i_cfg s) /\ defp dn (i_cfg s) /\ glob_ok (i_cfg s) /\
+Definition good (e : env) (s : inst) : Prop :=
+  dom e (i_cfg s) /\ clean (i_cfg s) /\ defp (i_cfg s) /\ glob_ok (i_cfg s) /\
   i_failed s = false /\ i_clean s = true /\ no_high_shards e (i_disk s) /\
   shards_inv e (i_cfg s) (i_disk s) /\ disk_inv e (i_cfg s) (i_disk s) /\ run_inv e s /\
   c_globold (i_cfg s) <> None /\ c_fmaps (i_cfg s) <> None.
 
-Lemma good_reach : forall e dn s, good e dn s -> reach e dn s.
+Lemma good_reach : forall e s, good e s -> reach e s.
 Proof.
-  intros e dn s [H1 [H2 [H3 [H4 [H5 [H6 [H7 [H8 [H9 [H10 [H11 H12]]]]]]]]]]].
+  intros e s [H1 [H2 [H3 [H4 [H5 [H6 [H7 [H8 [H9 [H10 [H11 H12]]]]]]]]]]].
   split; auto. split; auto. split; auto. split; auto. split; auto.
   right. split; auto. split; auto. split; auto. split; auto. split; auto.
   intros C. congruence.
@@ -334,7 +331,8 @@ Definition mid_rest (c0 c : config) (md : mode) : Prop :=
             (forall x, h_del (c_h c) x = None) /\ (forall x, h_add (c_h c) x = h_items (c_h c) x) /\
             (t_chg (c_t c) = false -> forall t, t_items (c_t c) t = None)
   | Partial => c_globold c = c_globold c0 /\ c_fmaps c = c_fmaps c0 /\ MH (h_items (c_h c0)) (c_h c) /\
-               (t_chg (c_t c) = false -> forall t, t_items (c_t c) t = t_items (c_t c0) t)
+               (t_chg (c_t c) = false -> forall t, t_items (c_t c) t = t_items (c_t c0) t) /\
+               b_defc (c_b c) = b_defc (c_b c0)
   end.
 Definition mid (e : env) (c0 c : config) (md : mode) : Prop :=
   MB e (b_items (c_b c0)) (c_b c) /\ mid_rest c0 c md.
@@ -476,6 +474,14 @@ Proof.
   intros r t a c H. unfold tcps_acquire. destruct (t_items t a); cbn; auto. discriminate.
 Qed.
 
+Lemma backs_remove_defc : forall e l b, b_defc (backs_remove e b l) = b_defc b.
+Proof.
+  unfold backs_remove. induction l as [|x l IH]; cbn; intros b; auto. rewrite IH.
+  unfold backs_remove1. destruct (b_items b x); reflexivity.
+Qed.
+Lemma backs_acquire_defc : forall e b x c, b_defc (backs_acquire e b x c) = b_defc b.
+Proof. intros. unfold backs_acquire. destruct (b_items b x); reflexivity. Qed.
+
 Lemma mid_acq : forall e c0 c md o, is_acq o = true -> mid e c0 c md -> mid e c0 (apply_op e c o) md.
 Proof.
   intros e c0 c md o Ho [Mb Mr]. destruct o; try discriminate; cbn.
@@ -483,18 +489,20 @@ Proof.
   - (* back acquire *) split; cbn.
     + apply MB_acquire; auto.
     + destruct md; cbn in *; auto.
+      destruct Mr as [H1 [H2 [H3 [H4 H5]]]]. split; [|split; [|split; [|split]]]; auto.
+      rewrite backs_acquire_defc. exact H5.
   - (* host acquire *) split; cbn; auto.
     destruct md; cbn in *.
     + destruct Mr as [H1 [H2 [H3 [H4 H5]]]]. repeat split; auto.
       * intros y. unfold hosts_acquire. destruct (h_items (c_h c) x); cbn; auto.
       * intros y. unfold hosts_acquire. destruct (h_items (c_h c) x) eqn:E; cbn; auto.
         destruct (N.eqb_spec y x) as [->|N]; [rewrite !fset_eq|rewrite !fset_neq by auto]; auto.
-    + destruct Mr as [H1 [H2 [H3 H4]]]. split; [|split; [|split]]; auto. apply MH_acquire; auto.
+    + destruct Mr as [H1 [H2 [H3 [H4 H5]]]]. split; [|split; [|split; [|split]]]; auto. apply MH_acquire; auto.
   - (* tcp acquire *) split; cbn; auto.
     destruct md; cbn in *.
     + destruct Mr as [H1 [H2 [H3 [H4 H5]]]]. repeat split; auto.
       apply (tcps_acquire_same (fun _ => None)); auto.
-    + destruct Mr as [H1 [H2 [H3 H4]]]. split; [|split; [|split]]; auto.
+    + destruct Mr as [H1 [H2 [H3 [H4 H5]]]]. split; [|split; [|split; [|split]]]; auto.
       apply (tcps_acquire_same (t_items (c_t c0))); auto.
   - (* default *) split; cbn.
     + destruct Mb; constructor; cbn; auto.
@@ -520,9 +528,10 @@ Proof.
       with (apply_ops e (apply_op e (apply_op e (apply_op e c0 (OTcpRemove lt)) (OHostsRemove lh)) (OBacksRemove lb)) acqs).
     apply mid_acqs; auto. split; cbn.
     + apply MB_remove; auto. apply MB_clean; auto.
-    + split; [|split; [|split]]; auto.
+    + split; [|split; [|split; [|split]]]; auto.
       * apply MH_remove; auto. apply MH_clean; auto.
       * apply (tcps_remove_same (t_items (c_t c0))). auto.
+      * apply backs_remove_defc.
 Qed.
 
 (* ================================================================ Shrink keeps the relation *)
@@ -563,7 +572,7 @@ Proof.
     + destruct Mr as [H1 [H2 [H3 [H4 H5]]]].
       assert (Hm : forall x, hmatch (c_h c) x = false) by (intros x; unfold hmatch; rewrite H3; reflexivity).
       repeat split; auto; intros x; rewrite Hm; auto.
-    + destruct Mr as [H1 [H2 [H3 H4]]]. split; [|split; [|split]]; auto. apply MH_shrink; auto.
+    + destruct Mr as [H1 [H2 [H3 [H4 H5]]]]. split; [|split; [|split; [|split]]]; auto. apply MH_shrink; auto.
 Qed.
 
 (* items exist before Shrink iff they exist after *)
@@ -680,7 +689,8 @@ Lemma update_f_ok : forall e fs s s', update_f e fs s = (s', false) ->
   (updated e c2 = true /\ s' = mk_inst (config_commit c2) d4 false (i_clean s) (i_running s) (i_pending s)) \/
   (updated e c2 = false /\ shard_fails e fs c2 None = false /\
    s' = mk_inst (config_commit c2) (config_w e fs (i_clean s) c2 d4) false true
-          (if inline e then Some (config_w e fs (i_clean s) c2 d4) else i_running s)
+          (if inline e then (if armed fs FReloadSilent then i_running s else Some (config_w e fs (i_clean s) c2 d4))
+           else i_running s)
           (if inline e then i_pending s else true)).
 Proof.
   intros e fs s s'. unfold update_f.
@@ -699,7 +709,7 @@ Proof.
     destruct e5; [unfold finish; intros H; inversion H|]. apply ph_config_ok in P5. destruct P5 as [-> SF].
     right. split; auto. split; auto.
     destruct (inline e).
-    + destruct (armed fs FReloadRequest || armed fs FReloadResult); unfold finish in H; inversion H. reflexivity.
+    + destruct (armed fs FReloadRequest || armed fs FReloadResult || armed fs FReloadReset); unfold finish in H; inversion H. reflexivity.
     + unfold finish in H. inversion H. reflexivity.
 Qed.
 
@@ -996,21 +1006,28 @@ Lemma any_rssl_ext : forall e (a b : N -> bool), (forall h, a h = b h) -> any_rs
 Proof. intros. unfold any_rssl. apply existsb_ext_in. intros. apply H. Qed.
 
 (* the update is taken for a no-op: nothing differs from the committed state *)
-Lemma updated_same : forall e c0 c md, dom e c -> mid e c0 c md -> glob_ok c0 -> updated e c = true ->
+Lemma optN_eqb_eq : forall a b, optN_eqb a b = true -> a = b.
+Proof. intros [a|] [b|]; cbn; intros H; try discriminate; auto. apply N.eqb_eq in H. congruence. Qed.
+
+Lemma updated_same : forall e c0 c md, dom e c -> mid e c0 c md -> glob_ok c0 -> defp c0 -> updated e c = true ->
   md = Partial /\ c_globold c0 <> None /\ c_glob c = c_glob c0 /\
   (forall t, t_items (c_t c) t = t_items (c_t c0) t) /\
   (forall h, h_items (c_h c) h = h_items (c_h c0) h) /\
-  (forall x, b_items (c_b c) x = b_items (c_b c0) x).
+  (forall x, b_items (c_b c) x = b_items (c_b c0) x) /\
+  b_def (c_b c) = b_def (c_b c0).
 Proof.
-  intros e c0 c md [Db [Dh Dt]] [Mb Mr] G U. unfold updated in U.
+  intros e c0 c md [Db [Dh Dt]] [Mb Mr] G Dp U. unfold updated in U.
   destruct (c_globold c) as [g|] eqn:Go; [|discriminate].
-  repeat (apply andb_true_iff in U; destruct U as [U ?]).
-  apply N.eqb_eq in U. apply negb_true_iff in H1. apply negb_true_iff in H0.
+  apply andb_true_iff in U. destruct U as [U H].
+  apply andb_true_iff in U. destruct U as [U Hd].
+  apply andb_true_iff in U. destruct U as [U H0].
+  apply andb_true_iff in U. destruct U as [U H1].
+  apply N.eqb_eq in U. apply negb_true_iff in H1. apply negb_true_iff in H0. apply optN_eqb_eq in Hd.
   destruct md; cbn in Mr.
   - destruct Mr as [Mr _]. congruence.
-  - destruct Mr as [M1 [M2 [M3 M4]]]. split; auto. split; [congruence|]. split.
+  - destruct Mr as [M1 [M2 [M3 [M4 M5]]]]. split; auto. split; [congruence|]. split.
     + rewrite M1 in Go. apply G in Go. congruence.
-    + split; [auto|]. split.
+    + split; [auto|]. split; [|split].
       * apply (hosts_unchanged e); auto.
       * intros x. destruct (b_add (c_b c) x) as [a|] eqn:A.
         -- assert (Ix : In x (UB e)) by (apply Db; right; left; congruence).
@@ -1021,6 +1038,7 @@ Proof.
            ++ assert (Ix : In x (UB e)) by (apply Db; right; right; congruence).
               rewrite forallb_forall in H. specialize (H x Ix). rewrite A, D in H. discriminate.
            ++ apply (mb3 _ _ _ Mb); auto.
+      * unfold defp in Dp. congruence.
 Qed.
 
 (* a shard that is not flagged holds what it held *)
@@ -1042,11 +1060,11 @@ Proof.
 Qed.
 
 (* when the frontend maps are not rebuilt, what they were built from is what is there now *)
-Lemma front_same : forall e dn c0 c md, dom e c -> mid e c0 c md -> ready dn c -> front_guard e c = false ->
+Lemma front_same : forall e c0 c md, dom e c -> mid e c0 c md -> ready c -> front_guard e c = false ->
   md = Partial /\ c_fmaps c = c_fmaps c0 /\ (forall h, h_items (c_h c) h = h_items (c_h c0) h) /\
   (forall h, rssl c h = rssl c0 h).
 Proof.
-  intros e dn c0 c md [Db [Dh Dt]] [Mb Mr] [_ Ri] G. apply front_guard_false in G. destruct G as [G1 [G2 G3]].
+  intros e c0 c md [Db [Dh Dt]] [Mb Mr] [_ Ri] G. apply front_guard_false in G. destruct G as [G1 [G2 G3]].
   destruct md; cbn in Mr.
   - destruct Mr as [_ [Mr _]]. congruence.
   - destruct Mr as [M1 [M2 [M3 M4]]]. split; auto. split; auto.
@@ -1076,13 +1094,13 @@ Record upd_pre (e : env) (cl : bool) (c1 : config) (d0 : disk) : Prop := {
 }.
 
 (* the committed state was good: whatever the update skips is still right *)
-Lemma upd_pre_good : forall e dn cl c0 c1 md d0,
-  dom e c1 -> mid e c0 c1 md -> ready dn c1 -> glob_ok c0 -> defp dn c0 ->
+Lemma upd_pre_good : forall e cl c0 c1 md d0,
+  dom e c1 -> mid e c0 c1 md -> ready c1 -> glob_ok c0 -> defp c0 ->
   disk_inv e c0 d0 ->
   (cl = true -> shards_inv e c0 d0 /\ no_high_shards e d0) -> (cl = false -> virgin c0) ->
   upd_pre e cl c1 d0.
 Proof.
-  intros e dn cl c0 c1 md d0 D M R G Dp I Hcl Hvg.
+  intros e cl c0 c1 md d0 D M R G Dp I Hcl Hvg.
   assert (D' := D). destruct D' as [Db [Dh Dt]]. assert (M' := M). destruct M' as [Mb Mr].
   constructor.
   - (* tcp maps *)
@@ -1093,7 +1111,7 @@ Proof.
       rewrite (port_used_ext e _ _ p Mt) in Hp. destruct (di_tcpmap _ _ _ I p Hp) as [f [Hf Hg]].
       exists f. split; auto. intros t. rewrite Hg. unfold restrict_port. rewrite Mt. reflexivity.
   - (* frontend maps *)
-    intros Gd. destruct (front_same e dn c0 c1 md D M R Gd) as [-> [Ef [Eh Er]]].
+    intros Gd. destruct (front_same e c0 c1 md D M R Gd) as [-> [Ef [Eh Er]]].
     destruct (front_guard_false _ _ Gd) as [Gf _]. rewrite Ef in Gf.
     split.
     + destruct (c_fmaps c0) as [f|] eqn:F0; [|congruence]. exists f. split; [congruence|].
@@ -1165,9 +1183,9 @@ Proof.
   - destruct Mr as [_ [_ [H3 _]]]. cbn. unfold hmatch. rewrite H3. reflexivity.
   - destruct Mr as [_ [_ [M3 _]]]. apply (shrink_hitems _ _ x M3).
 Qed.
-Lemma ready_shrink : forall e dn c0 c md, mid e c0 c md -> ready dn c -> ready dn (config_shrink e c).
+Lemma ready_shrink : forall e c0 c md, mid e c0 c md -> ready c -> ready (config_shrink e c).
 Proof.
-  intros e dn c0 c md M [R1 R2]. assert (M' := M). destruct M' as [Mb _]. split.
+  intros e c0 c md M [R1 R2]. assert (M' := M). destruct M' as [Mb _]. split.
   - cbn [config_shrink with_h with_b c_b]. rewrite (shrink_items_some e _ _ dn Mb). exact R1.
   - intros h hc b Hh Hr. rewrite (mid_hitems_shrink e c0 c md M) in Hh.
     specialize (R2 h hc b Hh Hr). apply isSome_true. cbn [config_shrink with_h with_b c_b].
@@ -1222,29 +1240,29 @@ Proof. intros c. unfold clean. cbn. repeat split; auto. Qed.
 
 (* A reconciliation whose update reports success leaves the files exactly those of the
    current state - from a state whose files were right, and from a state marked as failed. *)
-Lemma update_good : forall e dn fs s0 l s',
-  shard_range e -> reach e dn s0 -> wf_batch e dn (i_cfg s0) l ->
-  update_f e fs (sync e s0 l) = (s', false) -> good e dn s'.
+Lemma update_good : forall e fs s0 l s',
+  shard_range e -> reach e s0 -> wf_batch e (i_cfg s0) l -> armed fs FReloadSilent = false ->
+  update_f e fs (sync e s0 l) = (s', false) -> good e s'.
 Proof.
-  intros e dn fs s0 l s' SR [D0 [Cl0 [Dp0 [G0 [NH0 St]]]]] [Shape [Oin Rdy]] U.
+  intros e fs s0 l s' SR [D0 [Cl0 [Dp0 [G0 [NH0 St]]]]] [Shape [Oin Rdy]] NS U.
   set (cs := apply_ops e (i_cfg s0) l) in *.
   assert (Dcs : dom e cs) by (apply dom_apply_ops; auto).
   destruct (mid_batch e (i_cfg s0) l SR D0 Cl0 Shape) as [md Mcs]. fold cs in Mcs.
   assert (Dsh : dom e (config_shrink e cs)) by (apply dom_shrink; auto).
   assert (Msh : mid e (i_cfg s0) (config_shrink e cs) md) by (apply mid_shrink; auto).
-  assert (Rsh : ready dn (config_shrink e cs)) by (apply (ready_shrink e dn (i_cfg s0) cs md); auto).
+  assert (Rsh : ready (config_shrink e cs)) by (apply (ready_shrink e (i_cfg s0) cs md); auto).
   apply update_f_ok in U. cbn [sync i_cfg i_disk i_failed i_clean i_running i_pending] in U. fold cs in U.
   (* c1: the configuration the phases see *)
   set (c1 := if i_failed s0 then config_change_all e (config_shrink e cs) else config_shrink e cs) in *.
   assert (Dc1 : dom e c1) by (unfold c1; destruct (i_failed s0); auto using dom_change_all).
-  assert (Rc1 : ready dn c1) by (unfold c1; destruct (i_failed s0); auto).
+  assert (Rc1 : ready c1) by (unfold c1; destruct (i_failed s0); auto).
   assert (P : upd_pre e (i_clean s0) c1 (i_disk s0)).
   { unfold c1. destruct St as [F|[F [I0 [_ [_ [Hs Hv]]]]]]; rewrite F.
     - destruct Msh as [Mb _]. apply (upd_pre_failed e _ _ _ _ Dsh Mb NH0).
-    - apply (upd_pre_good e dn _ (i_cfg s0) _ md); auto. }
+    - apply (upd_pre_good e _ (i_cfg s0) _ md); auto. }
   destruct P as [P1 P2 P3 P4 P5 P5' P6 P7].
   assert (Dc2 : dom e (config_commit (front_c e c1))) by (apply dom_commit; apply dom_front_c; auto).
-  assert (Dp2 : defp dn (config_commit (front_c e c1))).
+  assert (Dp2 : defp (config_commit (front_c e c1))).
   { unfold defp. cbn [config_commit c_b backs_commit b_def b_items]. destruct (front_c_fields e c1) as [Hb _]. rewrite Hb. apply Rc1. }
   assert (G2 : glob_ok (config_commit (front_c e c1))).
   { unfold glob_ok. cbn [config_commit c_globold c_glob]. intros g Hg. congruence. }
@@ -1285,7 +1303,7 @@ Proof.
     unfold good, mk_inst. cbn [i_cfg i_disk i_failed i_clean i_running i_pending].
     repeat (split; [solve [auto using clean_commit]|]).
     split; [|split; [cbn; discriminate|apply front_c_fmaps]].
-    intros Inl _. rewrite Inl. eexists. split; [reflexivity|]. split; auto.
+    intros Inl _. rewrite Inl, NS. eexists. split; [reflexivity|]. split; auto.
 Qed.
 
 (* ================================================================ whatever happens: the shape of the result *)
@@ -1354,7 +1372,7 @@ Proof.
   { unfold finish. cbn [snd]. do 5 eexists. split; [reflexivity|]. repeat split; auto. }
   assert (N5 : (i_clean s = true -> no_high_shards e (i_disk s)) -> no_high_shards e d5) by (intros H; apply S5; auto).
   destruct (inline e).
-  - destruct (armed fs FReloadRequest || armed fs FReloadResult); unfold finish; cbn [snd];
+  - destruct (armed fs FReloadRequest || armed fs FReloadResult || armed fs FReloadReset); unfold finish; cbn [snd];
       do 5 eexists; (split; [reflexivity|]); repeat split; auto.
   - unfold finish. cbn [snd]. do 5 eexists. split; [reflexivity|]. repeat split; auto.
 Qed.
@@ -1380,10 +1398,11 @@ Proof.
 Qed.
 
 (* every reconciliation keeps the history within [reach] *)
-Lemma step_reach : forall e dn fs s0 l,
-  shard_range e -> reach e dn s0 -> wf_batch e dn (i_cfg s0) l -> reach e dn (fst (step_f e fs s0 l)).
+Lemma step_reach : forall e fs s0 l,
+  shard_range e -> reach e s0 -> wf_batch e (i_cfg s0) l -> armed fs FReloadSilent = false ->
+  reach e (fst (step_f e fs s0 l)).
 Proof.
-  intros e dn fs s0 l SR R W. unfold step_f.
+  intros e fs s0 l SR R W NS. unfold step_f.
   destruct (snd (update_f e fs (sync e s0 l))) eqn:Err.
   - (* failed *)
     destruct (update_f_shape e fs (sync e s0 l)) as [c [d [cl [r [p [U [Hb [Hh [Ht [Hg Hn]]]]]]]]]].
@@ -1393,10 +1412,10 @@ Proof.
     assert (Dcs : dom e cs) by (apply dom_apply_ops; auto).
     destruct (mid_batch e (i_cfg s0) l SR D0 Cl0 Shape) as [md Mcs]. fold cs in Mcs.
     assert (Dsh : dom e (config_shrink e cs)) by (apply dom_shrink; auto).
-    assert (Rsh : ready dn (config_shrink e cs)) by (apply (ready_shrink e dn (i_cfg s0) cs md); auto).
+    assert (Rsh : ready (config_shrink e cs)) by (apply (ready_shrink e (i_cfg s0) cs md); auto).
     assert (Dpre : dom e (pre_cfg e (sync e s0 l))).
     { unfold pre_cfg. cbn [sync i_failed i_cfg]. fold cs. destruct (i_failed s0); auto using dom_change_all. }
-    assert (Rpre : ready dn (pre_cfg e (sync e s0 l))).
+    assert (Rpre : ready (pre_cfg e (sync e s0 l))).
     { unfold pre_cfg. cbn [sync i_failed i_cfg]. fold cs. destruct (i_failed s0); auto. }
     unfold reach, mk_inst. cbn [i_cfg i_disk i_failed i_clean].
     split; [|split; [|split; [|split; [|split]]]].
@@ -1407,7 +1426,7 @@ Proof.
     + apply Hn. exact NH0.
     + left. reflexivity.
   - (* succeeded *)
-    apply good_reach. apply (update_good e dn fs s0 l); auto.
+    apply good_reach. apply (update_good e fs s0 l); auto.
     destruct (update_f e fs (sync e s0 l)) as [s' err]. cbn in Err. subst err. reflexivity.
 Qed.
 
@@ -1468,24 +1487,25 @@ Proof.
     destruct (di_tcpcrt _ _ _ I _ A) as [g [G1 G2]]. rewrite G1, G2. unfold restrict_port. rewrite N.eqb_refl. reflexivity.
 Qed.
 
-Lemma good_disk_ok : forall e dn s, shard_range e -> good e dn s -> disk_ok e (i_cfg s) (i_disk s).
+Lemma good_disk_ok : forall e s, shard_range e -> good e s -> disk_ok e (i_cfg s) (i_disk s).
 Proof.
-  intros e dn s SR [D [_ [_ [_ [_ [_ [NH [Sh [I [_ [Go Fo]]]]]]]]]]]. apply inv_disk_ok; auto.
+  intros e s SR [D [_ [_ [_ [_ [_ [NH [Sh [I [_ [Go Fo]]]]]]]]]]]. apply inv_disk_ok; auto.
 Qed.
 (* what an inline reload loaded *)
-Lemma good_running_ok : forall e dn s, shard_range e -> good e dn s -> inline e = true ->
+Lemma good_running_ok : forall e s, shard_range e -> good e s -> inline e = true ->
   exists r, i_running s = Some r /\ disk_ok e (i_cfg s) r.
 Proof.
-  intros e dn s SR [D [_ [_ [_ [_ [_ [_ [_ [_ [Rn [Go Fo]]]]]]]]]]] Inl.
+  intros e s SR [D [_ [_ [_ [_ [_ [_ [_ [_ [Rn [Go Fo]]]]]]]]]]] Inl.
   destruct (Rn Inl Go) as [r [Hr [NHr [Shr Ir]]]]. exists r. split; auto. apply inv_disk_ok; auto.
 Qed.
 
 (* ================================================================ histories *)
 
-Fixpoint wf_hist (e : env) (dn : N) (s : inst) (h : list (list op * list fpoint)) : Prop :=
+Fixpoint wf_hist (e : env) (s : inst) (h : list (list op * list fpoint)) : Prop :=
   match h with
   | [] => True
-  | st :: h' => wf_batch e dn (i_cfg s) (fst st) /\ wf_hist e dn (fst (step_f e (snd st) s (fst st))) h'
+  | st :: h' => wf_batch e (i_cfg s) (fst st) /\ armed (snd st) FReloadSilent = false /\
+                wf_hist e (fst (step_f e (snd st) s (fst st))) h'
   end.
 
 Lemma port_used_empty : forall e p, port_used e fempty p = false.
@@ -1509,9 +1529,9 @@ Proof.
   repeat split; intros x H; repeat (destruct H as [H|H]); exfalso; apply H; reflexivity.
 Qed.
 (* a new instance, whatever the directory holds *)
-Lemma reach_new : forall e dn d r, reach e dn (mk_inst config_empty d false false r false).
+Lemma reach_new : forall e d r, reach e (mk_inst config_empty d false false r false).
 Proof.
-  intros e dn d r. unfold reach, mk_inst. cbn [i_cfg i_disk i_failed i_clean].
+  intros e d r. unfold reach, mk_inst. cbn [i_cfg i_disk i_failed i_clean].
   split; [apply dom_empty|]. split; [unfold clean; cbn; repeat split; auto|].
   split; [reflexivity|]. split; [intros g H; discriminate|]. split; [discriminate|].
   right. split; [reflexivity|]. split; [apply disk_inv_virgin|]. split; [|split; [|split]].
@@ -1520,31 +1540,32 @@ Proof.
   - discriminate.
   - intros _. split; reflexivity.
 Qed.
-Lemma reach_empty : forall e dn, reach e dn inst_empty.
-Proof. intros e dn. apply (reach_new e dn disk_empty None). Qed.
+Lemma reach_empty : forall e, reach e inst_empty.
+Proof. intros e. apply (reach_new e disk_empty None). Qed.
 
-Lemma reach_hist : forall e dn, shard_range e -> forall h s, reach e dn s -> wf_hist e dn s h -> reach e dn (run_f e s h).
+Lemma reach_hist : forall e, shard_range e -> forall h s, reach e s -> wf_hist e s h -> reach e (run_f e s h).
 Proof.
-  intros e dn SR. induction h as [|[l fs] h IH]; cbn; intros s R W; auto.
-  destruct W as [W1 W2]. apply IH; auto. apply step_reach; auto.
+  intros e SR. induction h as [|[l fs] h IH]; cbn; intros s R W; auto.
+  destruct W as [W1 [NS W2]]. apply IH; auto. apply step_reach; auto.
 Qed.
 
-(* C12 at full strength: whatever faults hit the earlier updates of a history, a
+(* C12: whatever signalled faults hit the earlier updates of a history ([wf_hist] leaves out
+   FReloadSilent only: a master that drops the reload without any sign of it), a
    reconciliation whose update reports success leaves files - and, when the update reloads
    itself, the running haproxy - that are exactly those of the current state. *)
-Theorem success_is_convergence : forall e dn, shard_range e ->
-  forall h, wf_hist e dn inst_empty h ->
-  forall l fs s', wf_batch e dn (i_cfg (run_f e inst_empty h)) l ->
+Theorem success_is_convergence : forall e, shard_range e ->
+  forall h, wf_hist e inst_empty h ->
+  forall l fs s', wf_batch e (i_cfg (run_f e inst_empty h)) l -> armed fs FReloadSilent = false ->
     step_f e fs (run_f e inst_empty h) l = (s', false) ->
     i_failed s' = false /\ disk_ok e (i_cfg s') (i_disk s') /\
     (inline e = true -> exists r, i_running s' = Some r /\ disk_ok e (i_cfg s') r).
 Proof.
-  intros e dn SR h W l fs s' Wl U.
-  assert (R : reach e dn (run_f e inst_empty h)) by (apply reach_hist; auto using reach_empty).
-  assert (G : good e dn s') by (apply (update_good e dn fs (run_f e inst_empty h) l); auto).
+  intros e SR h W l fs s' Wl NS U.
+  assert (R : reach e (run_f e inst_empty h)) by (apply reach_hist; auto using reach_empty).
+  assert (G : good e s') by (apply (update_good e fs (run_f e inst_empty h) l); auto).
   split; [apply G|]. split.
-  - apply (good_disk_ok e dn); auto.
-  - apply (good_running_ok e dn); auto.
+  - apply (good_disk_ok e); auto.
+  - apply (good_running_ok e); auto.
 Qed.
 
 (* a failed update is reported and remembered *)
@@ -1560,23 +1581,23 @@ Definition nofault (h : list (list op)) : list (list op * list fpoint) := map (f
 Lemma run_nofault : forall e h s, run e s h = run_f e s (nofault h).
 Proof. intros e. unfold run, run_f, nofault. induction h as [|l h IH]; cbn; intros s; auto. Qed.
 
-Theorem disk_invariant : forall e dn, shard_range e ->
-  forall h l, wf_hist e dn inst_empty (nofault (h ++ [l])) ->
+Theorem disk_invariant : forall e, shard_range e ->
+  forall h l, wf_hist e inst_empty (nofault (h ++ [l])) ->
     snd (step e (run e inst_empty h) l) = false /\
     disk_ok e (i_cfg (run e inst_empty (h ++ [l]))) (i_disk (run e inst_empty (h ++ [l]))).
 Proof.
-  intros e dn SR h l W.
+  intros e SR h l W.
   assert (E : snd (step e (run e inst_empty h) l) = false) by (unfold step, update; apply update_nofault_ok).
   split; auto.
-  assert (Wh : wf_hist e dn inst_empty (nofault h) /\ wf_batch e dn (i_cfg (run_f e inst_empty (nofault h))) l).
+  assert (Wh : wf_hist e inst_empty (nofault h) /\ wf_batch e (i_cfg (run_f e inst_empty (nofault h))) l).
   { clear E. unfold nofault in W. rewrite map_app in W. cbn in W. fold (nofault h) in W.
     revert W. generalize inst_empty. induction (nofault h) as [|st g IH]; cbn; intros s W.
     - destruct W as [W _]. auto.
-    - destruct W as [W1 W2]. destruct (IH _ W2) as [A B]. auto. }
+    - destruct W as [W1 [NS W2]]. destruct (IH _ W2) as [A B]. auto. }
   destruct Wh as [Wh Wl].
   assert (R : run e inst_empty (h ++ [l]) = fst (step e (run e inst_empty h) l)).
   { unfold run. rewrite fold_left_app. reflexivity. }
   rewrite R. destruct (step e (run e inst_empty h) l) as [s' err] eqn:S. cbn in E. subst err. cbn [fst].
   rewrite run_nofault in S.
-  destruct (success_is_convergence e dn SR (nofault h) Wh l [] s' Wl S) as [_ [D _]]. exact D.
+  destruct (success_is_convergence e SR (nofault h) Wh l [] s' Wl eq_refl S) as [_ [D _]]. exact D.
 Qed.
